@@ -83,12 +83,12 @@ theorem rawSlice_enc (s rest : Bytes) (hs : s.length < 2 ^ 62) : rawSlice (enc s
   unfold rawSlice
   have hl : (enc s ++ rest).length = 8 + s.length + rest.length := by
     rw [List.length_append, enc_length]
-  have h1 : ¬ (enc s ++ rest).length < 8 := by omega
-  simp only [h1, if_false]
+  have h1 : 8 ≤ (enc s ++ rest).length := by omega
+  simp only [lenGe_eq, h1, decide_true, Bool.not_true, Bool.false_eq_true, if_false]
   have : enc s ++ rest = be64 (w s.length) ++ (s ++ rest) := by unfold enc; simp
   rw [this, getU64_raw_be64, k_rawSliceLen _ (by omega), ← this]
   have h2 : 8 + s.length ≤ (enc s ++ rest).length := by omega
-  simp only [h2, if_true]
+  simp only [h2, decide_true, if_true]
   rw [← enc_length s, List.take_left]
 
 theorem enc_drop8 (s : Bytes) : (enc s).drop 8 = s := by
@@ -102,9 +102,9 @@ def mergeLoop (less : Bytes → Bytes → Bool) (end_ : Nat) : Nat → Nat → B
   | 0, _, _, _ => .error .fuel
   | fuel + 1, start, left, right =>
     if !mergeLoopCond (w start) (w end_) then .ok []
-    else if left.length == 0 then
+    else if left.isEmpty then
       if right.length ≤ end_ - start then .ok right else .error .assertFail
-    else if right.length == 0 then
+    else if right.isEmpty then
       if left.length ≤ end_ - start then .ok left else .error .assertFail
     else
       match rawSlice left, rawSlice right with
@@ -120,6 +120,8 @@ def mergeLoop (less : Bytes → Bytes → Bool) (end_ : Nat) : Nat → Nat → B
       | .error f, _ => .error f
       | _, .error f => .error f
 
+theorem isEmpty_eq_len (l : Bytes) : l.isEmpty = (l.length == 0) := by cases l <;> rfl
+
 /-- The pure byte-level loop on two encoded runs is the slice-level merge. -/
 theorem mergeLoop_enc (less : Bytes → Bytes → Bool) (end_ : Nat) (he : end_ < 2 ^ 62) :
     ∀ (L R : List Bytes) (fuel start : Nat),
@@ -134,6 +136,7 @@ theorem mergeLoop_enc (less : Bytes → Bytes → Bool) (end_ : Nat) (he : end_ 
     | zero => omega
     | succ f =>
       unfold mergeLoop
+      simp only [isEmpty_eq_len]
       rw [k_mergeLoopCond _ _ (by omega) (by omega)]
       simp only [encAll_nil, List.length_nil, Nat.add_zero] at hs ⊢
       by_cases hlt : start < end_
@@ -148,6 +151,7 @@ theorem mergeLoop_enc (less : Bytes → Bytes → Bool) (end_ : Nat) (he : end_ 
     | zero => omega
     | succ f =>
       unfold mergeLoop
+      simp only [isEmpty_eq_len]
       rw [k_mergeLoopCond _ _ (by omega) (by omega)]
       have hpos : 0 < (encAll (a :: l)).length := by rw [encAll_cons, List.length_append, enc_length]; omega
       simp only [encAll_nil, List.length_nil, Nat.add_zero] at hs ⊢
@@ -161,6 +165,7 @@ theorem mergeLoop_enc (less : Bytes → Bytes → Bool) (end_ : Nat) (he : end_ 
     | zero => omega
     | succ f =>
       unfold mergeLoop
+      simp only [isEmpty_eq_len]
       rw [k_mergeLoopCond _ _ (by omega) (by omega)]
       have hla : (encAll (a :: l)).length = 8 + a.length + (encAll l).length := by
         rw [encAll_cons, List.length_append, enc_length]
@@ -181,6 +186,7 @@ theorem mergeLoop_enc (less : Bytes → Bytes → Bool) (end_ : Nat) (he : end_ 
     | zero => omega
     | succ f =>
       unfold mergeLoop
+      simp only [isEmpty_eq_len]
       rw [k_mergeLoopCond _ _ (by omega) (by omega)]
       have hla : (encAll (a :: l)).length = 8 + a.length + (encAll l).length := by
         rw [encAll_cons, List.length_append, enc_length]
@@ -215,11 +221,11 @@ theorem overwrite_prefix (p m y : Bytes) : overwrite (p ++ m) p.length y = p ++ 
 
 theorem rawSlice_take (buf r : Bytes) (h : rawSlice buf = .ok r) : ∃ k, k ≤ buf.length ∧ r = buf.take k := by
   unfold rawSlice at h
+  simp only [lenGe_eq] at h
   split at h
   · cases h
-  · simp only at h
-    split at h
-    · rename_i hk; cases h; exact ⟨_, hk, rfl⟩
+  · split at h
+    · rename_i hk; cases h; exact ⟨_, by simpa using hk, rfl⟩
     · cases h
 
 /-- The in-place loop equals the pure loop: with `|G| = |left|` bytes between the write
@@ -237,6 +243,7 @@ theorem mergeInPlace_eq (less : Bytes → Bytes → Bool) : ∀ (fuel : Nat) (pr
   | succ f ih =>
     intro pre G right post left hG hb
     unfold mergeInPlace mergeLoop
+    simp only [isEmpty_eq_len]
     rw [k_mergeLoopCond _ _ (by omega) (by omega)]
     by_cases hlt : pre.length < pre.length + G.length + right.length
     · simp only [hlt, decide_true, Bool.not_true, Bool.false_eq_true, if_false]
